@@ -395,18 +395,8 @@ def _keyfield(draw, table, min_width, names):
 # ---------------------------------------------------------------------------------------------
 # rendering
 
-def render_join(j, lang):
-    parts = []
-    for p in j['pairs']:
-        l = p['l']['nr'] if 'nr' in p['l'] else p['l']['f'][lang]
-        r = p['r']['nr'] if 'nr' in p['r'] else p['r']['f'][lang]
-        if p.get('swap'):
-            l, r = r, l
-        parts.append('%s%s%s' % (l, p['eq'], r))
-    return '%s %s on %s' % (j['kind'], j.get('table', 'b'), (' %s ' % j.get('and', 'and')).join(parts))
-
-
-def render_item(it, lang):
+def render_item(it, lang, K=None):
+    K = K or (lambda s: s)
     k = it['k']
     if k == 'star':
         return '*'
@@ -428,7 +418,7 @@ def render_item(it, lang):
     if t is None:
         raise ValueError('item not renderable in %s' % lang)
     if it.get('alias'):
-        t += ' %s %s' % (it.get('as_kw', 'AS'), it['alias'])
+        t += ' %s %s' % (K(it.get('as_kw', 'AS')), it['alias'])
     return t
 
 
@@ -440,8 +430,11 @@ def renderable(q, lang):
         return False
 
 
-def render_clauses(q, lang):
-    """Returns (head, [clauses]) where the clauses may be permuted freely (C08)."""
+def render_clauses(q, lang, K=None):
+    """Returns (head_pieces, [clauses]); the clauses may be permuted freely (C08).
+    K(keyword) lets a caller re-spell every keyword it emits."""
+    K = K or (lambda s: s)
+
     def ex(e):
         t = e[lang]
         if t is None:
@@ -449,45 +442,58 @@ def render_clauses(q, lang):
         return t
     clauses = []
     if q['type'] == 'select':
-        head = 'SELECT'
+        head = [K('SELECT')]
         if q.get('top') and q['top']['form'] == 'TOP':
-            head += ' TOP %d' % q['top']['n']
+            head += [K('TOP'), '%d' % q['top']['n']]
         if q.get('distinct') == 'distinct':
-            head += ' DISTINCT'
+            head += [K('DISTINCT')]
         elif q.get('distinct') == 'count':
-            head += ' DISTINCT COUNT'
-        head += ' ' + ', '.join(render_item(it, lang) for it in q['items'])
+            head += [K('DISTINCT'), K('COUNT')]
+        head.append(', '.join(render_item(it, lang, K) for it in q['items']))
         if q.get('except'):
-            clauses.append('EXCEPT ' + ', '.join(f[lang] for f in q['except']))
+            clauses.append([K('EXCEPT'), ', '.join(f[lang] for f in q['except'])])
     else:
-        head = 'UPDATE'
+        head = [K('UPDATE')]
         if q.get('update_a'):
-            head += ' a SET'
+            head += [q.get('a_spelling', 'a'), K('SET')]
         elif q.get('set_kw'):
-            head += ' SET'
-        head += ' ' + ', '.join('%s %s %s' % (a['target'][lang], a.get('eq', '='), ex(a['e'])) for a in q['assign'])
+            head += [K('SET')]
+        head.append(', '.join('%s %s %s' % (a['target'][lang], a.get('eq', '='), ex(a['e'])) for a in q['assign']))
     if q.get('join'):
-        clauses.append(render_join(q['join'], lang))
+        j = q['join']
+        parts = []
+        for p in j['pairs']:
+            l = p['l']['nr'] if 'nr' in p['l'] else p['l']['f'][lang]
+            r = p['r']['nr'] if 'nr' in p['r'] else p['r']['f'][lang]
+            if p.get('swap'):
+                l, r = r, l
+            parts.append('%s%s%s' % (l, p['eq'], r))
+        jc = [K(j['kind']), j.get('table', 'b'), K(j.get('on', 'on'))]
+        for i, part in enumerate(parts):
+            if i:
+                jc.append(K(j.get('and', 'and')))
+            jc.append(part)
+        clauses.append(jc)
     if q.get('where') is not None:
-        clauses.append('WHERE ' + ex(q['where']))
+        clauses.append([K('WHERE'), ex(q['where'])])
     if q.get('group') is not None:
-        clauses.append('GROUP BY ' + ', '.join(ex(e) for e in q['group']))
+        clauses.append([K('GROUP BY'), ', '.join(ex(e) for e in q['group'])])
     if q.get('order') is not None:
         o = q['order']
-        t = 'ORDER BY ' + ', '.join(ex(e) for e in o['keys'])
+        oc = [K('ORDER BY'), ', '.join(ex(e) for e in o['keys'])]
         if o.get('desc'):
-            t += ' DESC'
+            oc.append(K('DESC'))
         elif o.get('asc_kw'):
-            t += ' ASC'
-        clauses.append(t)
+            oc.append(K('ASC'))
+        clauses.append(oc)
     if q.get('top') and q['top']['form'] == 'LIMIT':
-        clauses.append('LIMIT %d' % q['top']['n'])
+        clauses.append([K('LIMIT'), '%d' % q['top']['n']])
     return head, clauses
 
 
 def render(q, lang='py'):
     head, clauses = render_clauses(q, lang)
-    return ' '.join([head] + clauses)
+    return ' '.join(head + [' '.join(c) for c in clauses])
 
 
 # ---------------------------------------------------------------------------------------------
